@@ -374,6 +374,9 @@ class Module(HasAccessibles):
             if value is not None:
                 try:
                     if isinstance(value, dict):
+                        for propname in value:
+                            if propname != 'value':  # a property has no properties: do not silently ignore them
+                                self.errors.append(f"'{key}' has no property '{propname}'")
                         self.setProperty(key, value['value'])
                     else:
                         self.setProperty(key, value)
